@@ -248,6 +248,12 @@ func c30probes(srv *simredis.Server) int {
 // c30eval runs one scenario and returns the rule violations, the outcome class and whether an
 // interesting branch (fallback, load, fault) was exercised.
 func c30eval(c c30case) (viols []c30viol, outcome string, nontrivial bool) {
+	forged := false
+	defer func() {
+		if forged {
+			outcome += " [body ran twice because the script itself forged a NOSCRIPT error: outside the property]"
+		}
+	}()
 	kd := c30kinds[c.Kind]
 	script := c30rw
 	if kd.ro {
@@ -347,11 +353,13 @@ func c30eval(c c30case) (viols []c30viol, outcome string, nontrivial bool) {
 				madeByScript = true
 			}
 		}
-		if dRuns > n || dCnt > n {
+		if (dRuns > n || dCnt > n) && madeByScript {
+			// Observed, not judged: the script body itself returned an error text starting with NOSCRIPT after its
+			// side effect. The client cannot tell this from the server's real NOSCRIPT (which guarantees the body did
+			// not run), so the EVAL fallback is what the statement prescribes; a forged NOSCRIPT is outside the domain.
+			forged = true
+		} else if dRuns > n || dCnt > n {
 			sig := api + ": script body executed more than once per LuaExec"
-			if madeByScript {
-				sig = api + ": script body executed twice: a NOSCRIPT-prefixed error returned by the script body itself triggers the EVAL fallback"
-			}
 			bad(sig, "%s %s: %d LuaExec, server ran the body %d times, side-effect counter advanced by %d\n%s", kd.name, where, n, dRuns, dCnt, tr)
 		}
 		if dRuns != dCnt {
@@ -362,7 +370,7 @@ func c30eval(c c30case) (viols []c30viol, outcome string, nontrivial bool) {
 				if d := c30getInt(srv, execs[i].Keys[0]) - keyCnt0[i]; d > 1 {
 					sig := api + ": script body executed more than once for one LuaExec (KEYS[1] counter)"
 					if madeByScript {
-						sig = api + ": script body executed twice: a NOSCRIPT-prefixed error returned by the script body itself triggers the EVAL fallback"
+						continue
 					}
 					bad(sig, "%s %s: exec %d key %s advanced by %d\n%s", kd.name, where, i, execs[i].Keys[0], d, tr)
 				}
